@@ -129,7 +129,7 @@ CLAIMED = {
         text="Partial claim: the 13 integer-derived datatypes' well-formedness checkers accept every integer of the XSD value space "
              "(unbounded ints), the boolean lexical mapping on all strings up to length 5, the Gregorian days-in-month kernel for all "
              "years, idempotence of the normalizedString / token whitespace normalisers on strings up to length 3 (thorough 4), and "
-             "XSD duration / language lexical spaces within the live parsing patterns (any length), Literal.eq/neq on numeric literals of 6 datatypes with unbounded symbolic integer values, duration_isoformat on timedelta-like records with symbolic integer fields (|days| < 100, microseconds < 10^4 quick / all thorough) read back by a grammar-derived reader. Float, double, decimal, date/time "
+             "XSD duration / language lexical spaces within the live parsing patterns (any length), Literal.eq/neq on numeric literals of 6 datatypes with unbounded symbolic integer values, duration_isoformat on timedelta-like records with symbolic integer fields (|days| < 100, microseconds < 10^4) read back by a grammar-derived reader. Float, double, decimal, date/time "
              "value mappings and Literal construction itself are out of reach and not claimed.",
         note="Trusted base: CrossHair 0.0.110's model of Python str/int (counterexamples are replayed outside CrossHair; it has a known "
              "unsoundness around negative slice bounds on symbolic strings and does not model `$` matching before a final newline - `$`-terminated patterns are decided by the R obligations instead), z3, the %s/str.format shims, the reference decoders/matchers "
